@@ -44,6 +44,21 @@ def value_written(f, e):
     return a
 
 
+def _failure_stores(load):
+    """The stores that mark the scan of the log as failed: a constant written to a status local (a bool flag such as
+    `read_failed = true`, or one variable of an enumeration) that differs from the constant the local was declared with."""
+    inits = {e['n']: const_value(e.get('init')) for e in load.events('decl') if e.get('init') is not None and const_value(e.get('init')) is not None
+             and e.get('tk') in ('bool', 'enum', 'int')}
+    out = []
+    for e in load.events('asg'):
+        l = strip(e['l'])
+        if e.get('op') == '=' and isinstance(l, dict) and l.get('k') == 'var' and l['n'] in inits:
+            v = const_value(e.get('r'))
+            if v is not None and v != inits[l['n']] and l['n'].split('#')[0] not in ('is_deps',):
+                out.append((e, l['n'], v))
+    return out
+
+
 def ordered(f, evs):
     """events sorted in CFG (dominance) order: earlier first."""
     out = list(evs)
@@ -94,14 +109,14 @@ def run(ctx):
                           'src/deps_log.cc:%s' % load.term(bid)['line'],
                           'after `%s` the load succeeds only through Truncate(path, offset) or at a record boundary' % ef[0][:50],
                           witness=None if r is None else {'blocks': r[0]})
-    for e in load.events('asg'):
-        if is_var('read_failed')(e['l']) and const_value(e.get('r')) == 1:
+    for e, vname, val in _failure_stores(load):
+        if True:
             n += 1
             r = load.find_path(e, lambda x: x['k'] == 'ret' and is_enum('LOAD_SUCCESS')(x.get('e')),
                                is_blocker=lambda x: is_trunc(x) or x['k'] == 'ret',
-                               init_facts=[(('const', 'read_failed'), 1)])
+                               init_facts=[(('const', vname), val)])
             ctx.check('C09.X1', r is None, load.name, 'read_failed:success-without-truncate', load.where(e),
-                      'once read_failed is set, success is reported only after Truncate(path, offset)',
+                      'once the scan is marked as failed (%s = %s), success is reported only after Truncate(path, offset)' % (vname, val),
                       witness=None if r is None else {'blocks': r[0]})
     # once bytes of a record have been read (a successful fread), the loop is left towards success only by accepting
     # the record (offset advances past it) or through Truncate(path, offset): "looks like the end" is not a third way -
@@ -152,11 +167,11 @@ def run(ctx):
                   'offset grows by size + sizeof(size): %s' % dstr(e.get('r')))
         later = [x for x in load.blocks[e['_b']]['ev'][e['_i'] + 1:] if x['k'] in ('call', 'asg')]
         ctx.check('C09.O3', not later, load.name, 'offset:not-last', load.where(e), 'offset += is the last event of the loop body')
-        for x in load.events('asg'):
-            if is_var('read_failed')(x['l']) and const_value(x.get('r')) == 1:
-                r = load.find_path(x, lambda y: y is e, init_facts=[(('const', 'read_failed'), 1)])
+        for x, vname, val in _failure_stores(load):
+            if True:
+                r = load.find_path(x, lambda y: y is e, init_facts=[(('const', vname), val)])
                 ctx.check('C09.O3', r is None, load.name, 'offset:advanced-after-failure', load.where(x),
-                          'offset is not advanced after read_failed was set')
+                          'offset is not advanced after the scan was marked as failed (%s = %s)' % (vname, val))
         # node / deps tables are updated before offset advances only for accepted records (X2)
     ctx.floor('C09.O3', 6)
 
